@@ -415,10 +415,24 @@ func cliCommands(w *World, tm *Terms, fn *ssa.Function) []*cliCmd {
 		case fo.Op == "zero" || (fo.Op == "const" && fo.Name == "nil"):
 		case fo.Op == "makemap" && fo.V != nil:
 			if mm, ok := fo.V.(*ssa.MakeMap); ok {
-				ks, _ := mapUpdatesOf(tm, tm.Root(mm.Parent()), mm)
-				for _, k := range ks {
+				ks, vs := mapUpdatesOf(tm, tm.Root(mm.Parent()), mm)
+				for i, k := range ks {
 					if s, ok := constStringTerm(k); ok {
 						c.flagKeys = append(c.flagKeys, s)
+						if i < len(vs) {
+							dv := stripRef(vs[i])
+							for dv.Op == "deref" && len(dv.Args) == 1 {
+								dv = stripRef(dv.Args[0])
+							}
+							d := normField(dv, "DefaultValue", nil)
+							if ds, isConst := constStringTerm(d); isConst {
+								if ds != "" {
+									c.flagDefaults = append(c.flagDefaults, [2]string{s, ds})
+								}
+							} else if !(d.Op == "zero" || isField(d, "DefaultValue")) {
+								c.flagDefaults = append(c.flagDefaults, [2]string{s, "(" + d.String() + ")"})
+							}
+						}
 					} else {
 						c.nonConst = append(c.nonConst, "FlagOptions key")
 					}
